@@ -63,8 +63,8 @@ Proof.
   - eapply IH; eauto.
 Qed.
 
-Lemma accs_loop_In ce i :
-  forall accs st t r, accs_loop ce D st t accs = COk r -> In (XAArray i) accs ->
+Lemma accs_loop_In ce fu i :
+  forall accs st t r, accs_loop ce fu D st t accs = COk r -> In (XAArray i) accs ->
   exists st', is_ok (ce st' i) = true.
 Proof.
   induction accs as [|a accs IH]; intros st t r H Hin; [destruct Hin|].
@@ -128,7 +128,7 @@ Proof.
   all: try solve [ destruct (env_get (st_env st) x) as [[t [|]]|]; try discriminate;
                    apply cbind_ok in Hp; destruct Hp as [[[tas t'] st1] [H1 H2]];
                    match goal with Hi : In _ _ |- _ =>
-                     destruct (accs_loop_In _ _ _ _ _ _ H1 Hi) as [st' Hx]; exists f, st'; exact Hx end ].
+                     destruct (accs_loop_In _ _ _ _ _ _ _ H1 Hi) as [st' Hx]; exists f, st'; exact Hx end ].
   all: try solve [ inv_all; destruct f as [|f]; [discriminate|];
                    match goal with Hm : Infer.check_stmts _ _ _ _ _ = COk _, Hi : In _ _ |- _ =>
                      cbn [Infer.check_stmts] in Hm; refold Hm;
@@ -191,9 +191,9 @@ Proof.
   cbn [snd]. eapply R_trans; [eapply Hg; eauto|eapply IH; eauto].
 Qed.
 
-Lemma accs_loop_R ce :
+Lemma accs_loop_R ce fu :
   (forall st x r, ce st x = COk r -> R st (snd r)) ->
-  forall accs st t r, accs_loop ce D st t accs = COk r -> R st (snd r).
+  forall accs st t r, accs_loop ce fu D st t accs = COk r -> R st (snd r).
 Proof.
   intros Hce. induction accs as [|a accs IH]; intros st t r H; cbn [accs_loop] in H; [inv_all; apply R_refl|].
   apply cbind_ok in H. destruct H as [[[ta t'] st'] [H1 H2]]. cbv beta iota in H2.
@@ -225,7 +225,7 @@ Ltac use_R IHe IHss IHb IHs IHf := repeat match goal with
   | H : Infer.check_fn _ _ _ _ _ = COk _ |- _ => apply IHf in H
   | H : mapM_st (Infer.check_expr _ _ _) _ _ = COk _ |- _ => apply (mapM_st_R _ IHe) in H
   | H : mapM_st (Infer.check_stmt _ _ _) _ _ = COk _ |- _ => apply (mapM_st_R _ IHs) in H
-  | H : accs_loop _ _ _ _ _ = COk _ |- _ => apply (accs_loop_R _ IHe) in H
+  | H : accs_loop _ _ _ _ _ _ = COk _ |- _ => apply (accs_loop_R _ _ IHe) in H
   | H : struct_lit_loop _ _ _ _ _ _ = COk _ |- _ => apply (struct_lit_loop_R _ _ _ IHe) in H
   end.
 
